@@ -50,7 +50,7 @@ def run_replay(scen_path, trace_path, seed):
     for _ in range(400):
         r = subprocess.run([os.path.join(BIN, "comm_replay"), scen_path, trace_path, "--seed", str(seed),
                             "--start-line", str(start)],
-                           stdout=subprocess.PIPE, stderr=subprocess.PIPE, text=True, timeout=1500)
+                           stdout=subprocess.PIPE, stderr=subprocess.PIPE, text=True, timeout=1500, start_new_session=True)
         if r.returncode == 3 and "RESUME" in r.stderr:
             # the library span without system calls in one scenario (recorded as cpu_spin); carry on after it
             start = int(r.stderr.split("RESUME")[1].split()[0])
